@@ -51,4 +51,21 @@ PROPS = {
                         'redis queue backend: not covered by this check yet'],
         'trusted': ['persistence/queue/mem/verif_hooks.go (VerifShift, VerifReadWouldBlock, VerifDrained)'],
     },
+    'C03': {
+        'suites': [('lim', 2000, 100000)],
+        'rule': 'lim: random histories of poll/release/batchRelease/markUsed/close on the real packetIDLimiter (limits 1..65535, forced wrap 65535->1 by presetting the cursor); '
+                'non-trivial = a poll returned ids and (a poll blocked or the ids wrapped)',
+        'assumptions': ['markUsed is only called for ids that are not in use (what pollInflights does)'],
+        'trusted': ['server/verif_hooks.go: VerifLimiter'],
+    },
+    'C04': {
+        'suites': [('unack', 2000, 100000)],
+        'rule': 'unack: random histories of Init/Set/Remove on the mem unack store; non-trivial = a duplicate was reported',
+        'assumptions': [], 'trusted': [],
+    },
+    'C13': {
+        'suites': [('alias', 2000, 100000)],
+        'rule': 'alias: topic sequences over a pool of 1-8 topics against the fifo alias manager with maxima 0,1,2,3,5,65535; non-trivial = an alias was reused and an eviction happened',
+        'assumptions': [], 'trusted': [],
+    },
 }
